@@ -1,5 +1,5 @@
 /-
-C05 — the bodies that `evalBody` does not interpret yet (tab-stop loops, resize): their translated statement skeleton is pinned literally, so that an edit of one of these Go
+C05 — the bodies that `evalBody` does not interpret yet (resize): their translated statement skeleton is pinned literally, so that an edit of one of these Go
 bodies changes `Gen/TermBodies.lean` and breaks the corresponding `shape_<fn>` (then the
 correspondence run decides whether the model still agrees). Weaker than `body_<fn>` in
 Props/C05Bodies.lean: it says WHAT the source is, not that the model equals it.
@@ -8,34 +8,6 @@ import VaxisModel.Gen.TermBodies
 
 namespace VaxisModel.Props.C05BodyShapes
 open VaxisModel.Model.EmuBody VaxisModel.Gen
-
-theorem shape_cht : TermBodies.stmt_cht =
- (.seq (.setLastCol false)
- (.seq (.ite (.cmp .eq (.loc (.var 0)) (.lit 0))
- (.assign (.var 0) (.lit 1))
- .skip)
- (.seq (.assign (.var 1) (.lit 0))
- (.seq (.unknown "for _, ts := range vt.tabStop { if n == ps { break } if vt.cursor.col > ts { continue } vt.cursor.col = ts n += 1 }")
- (.ite (.cmp .gt (.loc .curCol) (.loc .right))
- (.assign .curCol (.loc .right))
- .skip))))) := rfl
-
-theorem shape_cbt : TermBodies.stmt_cbt =
- (.seq (.setLastCol false)
- (.seq (.ite (.cmp .eq (.loc (.var 0)) (.lit 0))
- (.assign (.var 0) (.lit 1))
- .skip)
- (.seq (.assign (.var 1) (.lit 0))
- (.unknown "for i := len(vt.tabStop) - 1; i >= 0; i -= 1 { if n == ps { break } if vt.cursor.col < vt.tabStop[i] { break } vt.cursor.col = vt.tabStop[i] n += 1 }")))) := rfl
-
-theorem shape_tbc : TermBodies.stmt_tbc =
- (.ite (.cmp .eq (.loc (.var 0)) (.lit 0))
- (.seq (.unknown "tabs := []column{}")
- (.seq (.unknown "for _, tab := range vt.tabStop { if tab == vt.cursor.col { continue } tabs = append(tabs, tab) }")
- (.unknown "vt.tabStop = tabs")))
- (.ite (.cmp .eq (.loc (.var 0)) (.lit 3))
- (.unknown "vt.tabStop = []column{}")
- .skip)) := rfl
 
 theorem shape_resize : TermBodies.stmt_resize =
  (.seq (.unknown "primary := vt.primaryScreen")
